@@ -704,6 +704,112 @@ def campaign_random(ck: Check, n: int) -> None:
     camp.wall_s = time.time() - t0
 
 
+def _is_placeholder(f) -> bool:
+    """the test of `Parser.__override_required_field`: a field with an original name and no type at all"""
+    dt = f.data_type
+    return bool(f.original_name) and not (dt.data_types or dt.reference or dt.type or dt.literals or dt.dict_key)
+
+
+def _field_content(f) -> tuple:
+    return (f.name, f.original_name, f.alias, f.data_type.type_hint, repr(f.constraints), repr(f.default))
+
+
+def campaign_inherit(ck: Check, n: int) -> None:
+    """Model.Inherit (`findField`, `overrideAll`) against the real `_find_field` / `Parser.__override_required_field`
+    on the classes the real parser builds for the lattice family (stage 1 of the real parser; the table — fields,
+    placeholders, base-class edges — is read off its DataModel objects)"""
+    from datamodel_code_generator.model.enum import Enum
+    from datamodel_code_generator.parser import base as pbase
+
+    ca = ck.campaign("inh.find (Model.Inherit.findField, fuel = queueCost) vs parser.base._find_field on the parsed lattice family")
+    cb = ck.campaign("inh.pass (Model.Inherit.overrideAll) vs Parser.__override_required_field: fields of every class after the pass (name, required, source declaration)")
+    t0 = time.time()
+    rng = ck.rng.fork("inherit")
+    off = rng.below(96)
+    jobs = []
+    for i in range(n):
+        doc, feats, _where = semfam.lattice_doc(rng.fork(str(i)), off + i, undeclared_required=(i % 4 == 1))
+        for st in STYLES if i % 2 == 0 else ("v2",):
+            try:
+                p = semlean._parser(doc, st, "contype")
+            except Exception as e:  # noqa: BLE001
+                ca.unmodelled += 1
+                ca.hit(f"parser-raised:{type(e).__name__}")
+                continue
+            models = list(pbase.sort_data_models(p.results)[1].values())
+            tag_of: dict[int, int] = {}
+            by_tag: dict[int, Any] = {}
+            names = [m.class_name for m in models]
+            if len(set(names)) != len(names):
+                ca.unmodelled += 1
+                continue
+            rows = []
+            for m in models:
+                frows = []
+                for f in m.fields:
+                    t = len(by_tag) + 1
+                    tag_of[id(f)], by_tag[t] = t, f
+                    frows.append(f"({hx(f.original_name or '')} {1 if f.required else 0} {1 if _is_placeholder(f) else 0} {t})")
+                bs = [b.reference.source.class_name for b in m.base_classes if b.reference and isinstance(b.reference.source, pbase.DataModel)]
+                rows.append(f"({hx(m.class_name)} ({' '.join(frows)}) ({' '.join(hx(b) for b in bs)}))")
+            table = "(" + " ".join(rows) + ")"
+            root_t = p.data_model_root_type
+            order = [m for m in models if not isinstance(m, (Enum, root_t))]
+            finds = [(m, f) for m in order for f in m.fields if _is_placeholder(f)]
+            jobs.append((doc, st, feats, p, models, order, table, tag_of, by_tag, finds))
+    reqs = []
+    for doc, st, feats, p, models, order, table, tag_of, by_tag, finds in jobs:
+        for m, f in finds:
+            reqs.append(f"inh.find {table} {hx(m.class_name)} {hx(f.original_name)}")
+        reqs.append(f"inh.pass {table} ({' '.join(hx(m.class_name) for m in order)})")
+    replies = iter(ck.driver.run(reqs))
+    for doc, st, feats, p, models, order, table, tag_of, by_tag, finds in jobs:
+        for ft in feats:
+            cb.hit(f"feature:{ft}")
+        for m, f in finds:
+            rep = next(replies)
+            ca.evaluations += 1
+            real_f = pbase._find_field(f.original_name, pbase._find_base_classes(m))
+            owner = next((x.class_name for x in models if any(y is real_f for y in x.fields)), None) if real_f is not None else None
+            real = "absent" if real_f is None else f"found {owner} {tag_of.get(id(real_f))}"
+            if rep.startswith("ok found "):
+                parts = semlean.parse_sx(rep[len("ok found "):])
+                model = f"found {unhx(parts[0])} {parts[1][3]}"
+            else:
+                model = rep[3:]
+            ca.hit("found" if real_f is not None else "absent")
+            ca.distinct.add(hash((table, m.class_name, f.original_name)))
+            if model != real:
+                ck.disagree(ca, {"doc": doc, "style": st, "class": m.class_name, "name": f.original_name}, model, real)
+            elif len(ca.samples) < 2:
+                ca.samples.append({"doc": doc, "style": st, "class": m.class_name, "name": f.original_name, "lookup": real})
+        rep = next(replies)
+        cb.evaluations += 1
+        p._Parser__override_required_field(order)
+        if not rep.startswith("ok "):
+            ck.infra_errors.append(f"driver reply {rep!r} for inh.pass")
+            continue
+        model_rows = {unhx(r[0]): [(unhx(x[0]), x[1] == "1", int(x[3])) for x in r[1:]] for r in semlean.parse_sx(rep[3:])[0]}
+        for m in models:
+            real_rows = [(f.original_name or "", bool(f.required)) for f in m.fields]
+            mrows = model_rows.get(m.class_name, [])
+            cb.distinct.add(hash((table, m.class_name)))
+            ok = [(a, b) for a, b, _ in mrows] == real_rows
+            if ok:
+                # a re-declared member is a copy of the declaration the model names
+                for (a, b, t), f in zip(mrows, m.fields):
+                    if id(f) not in tag_of and _field_content(f) != _field_content(by_tag[t]):
+                        ok = False
+            if any(id(f) not in tag_of for f in m.fields):
+                cb.hit("class_with_redeclared_member")
+            if not ok:
+                ck.disagree(cb, {"doc": doc, "style": st, "class": m.class_name}, [(a, b, _field_content(by_tag[t])[3]) for a, b, t in mrows], [(a, b, f.data_type.type_hint) for (a, b), f in zip(real_rows, m.fields)])
+            elif len(cb.samples) < 2 and any(id(f) not in tag_of for f in m.fields):
+                cb.samples.append({"doc": doc, "style": st, "class": m.class_name, "fields_after_pass": real_rows})
+    for c in (ca, cb):
+        c.wall_s = round((time.time() - t0) / 2, 2)
+
+
 def campaign_lattice(ck: Check, n: int) -> None:
     """`required` next to `allOf` naming INHERITED members, over inheritance lattices (several `$ref` bases, depth
     >= 2, diamonds): the member must be required in the generated class — the missing-member mutation rejected,
@@ -795,6 +901,7 @@ def run(ck: Check) -> None:
     campaign_pfields(ck, 60 if quick else 600)
     campaign_focused(ck)
     campaign_random(ck, 80 if quick else 1200)
+    campaign_inherit(ck, 24 if quick else 300)
     campaign_lattice(ck, 14 if quick else 150)
     ck.search_hooks.append(search_broken_keyword)
     known_findings(ck)
